@@ -7,5 +7,7 @@ CONSTANTS
   RegisterFirst = FALSE
   OldDelDeletedEarly = FALSE
   GcProtectsBuilding = TRUE
+  MaxFaults = 1
+  StoreMetaFirst = FALSE
 INVARIANT OrphanIsF4Class
 CHECK_DEADLOCK FALSE
